@@ -33,7 +33,7 @@ ASSUMPTIONS = [
 ]
 REQUIRED = {"all": ["salted_objects", "renders_checked", "valid_updates", "rejected_missing_key", "rejected_bad_colour", "rejected_non_dict",
                     "rejected_padded_missing_key", "multi_object_histories", "lengths_10k_plus_1", "render_after_reject", "rejected_empty_mapping",
-                    "caller_edits_after_accept", "second_handle_updates", "long_update_histories", "live_palette_dictionaries_handed_back", "palette_updates_on_shuffled_copies"]}
+                    "caller_edits_after_accept", "second_handle_updates", "long_update_histories", "live_palette_dictionaries_handed_back", "palette_updates_on_shuffled_copies", "stock_palette_updates"]}
 NHIST = {"quick": 1000, "thorough": 8000}
 COLOURS = ['aqua', 'black', 'blue', 'fuchsia', 'gray', 'green', 'lime', 'maroon', 'navy', 'olive', 'orange', 'purple',
            'red', 'silver', 'teal', 'white', 'yellow']
@@ -140,7 +140,7 @@ def judge(case, rep, S):
         k = rng.randrange(nobj)
         obj, model = objs[k], models[k]
         kind = rng.choice(["valid", "valid", "valid", "missing", "bad_colour", "bad_value_type", "non_dict", "padded_missing",
-                           "valid_padded", "empty", "valid_then_caller_edits", "live_map_handed_back"])
+                           "valid_padded", "empty", "valid_then_caller_edits", "live_map_handed_back", "stock_palette"])
         d = {a: rng.choice(COLOURS) for a in M.AA}
         order = list(M.AA)
         rng.shuffle(order)
@@ -152,7 +152,8 @@ def judge(case, rep, S):
         elif kind == "bad_colour":
             where = rng.choice(["first", "last", "any"])
             key = {"first": "A", "last": "Y", "any": rng.choice(list(M.AA))}[where]
-            d[key] = rng.choice(["pink", "brown", "cyan", "magenta", "#ff0000", "", "grey", "redd", "dark blue", "violet"])
+            d[key] = rng.choice(["pink", "brown", "cyan", "magenta", "#ff0000", "", "grey", "redd", "dark blue", "violet", "red\x00", "lime\x00\x00",
+                                 "red ", " red", "red\n", "\x00red", "Red", "RED"])
             expect_ok = False
         elif kind == "bad_value_type":
             d[rng.choice(list(M.AA))] = rng.choice([None, 3, 1.5, ("red",), ["blue"]])
@@ -163,7 +164,7 @@ def judge(case, rep, S):
         elif kind == "padded_missing":
             gone = rng.choice(list(M.AA))
             del d[gone]
-            for extra in rng.sample([gone.lower(), "X", "B", "ALA", "*", 1], rng.randint(1, 3)):
+            for extra in rng.sample([gone.lower(), "X", "B", "ALA", "*", 1, gone + rng.choice(list(M.AA)), rng.choice(list(M.AA)) + gone, gone * 2], rng.randint(1, 3)):
                 d[extra] = rng.choice(COLOURS)
             expect_ok = False
         elif kind == "valid_padded":
@@ -171,6 +172,10 @@ def judge(case, rep, S):
             if rng.random() < 0.6:
                 # entries for keys that are not amino acids take no part: whatever their values are
                 d[rng.choice(["X", "B", "name", "*"])] = rng.choice(["pink", "#aa00aa", "my scheme", None, 3])
+        elif kind == "stock_palette":
+            # a dictionary equal to the palette every new object starts with is a palette like any other
+            d = dict(DEFAULT)
+            rep.cnt("stock_palette_updates")
         elif kind == "live_map_handed_back":
             # there is no getter for the palette: users read the backend attribute, perhaps change an entry, and hand the very
             # same dictionary back - to the object it came from or to another one
